@@ -6,7 +6,7 @@ D=$(cd "$(dirname "$0")" && pwd)
 T=$(mktemp -d)
 trap 'rm -rf "$T"' EXIT
 cc -O1 -w -Wno-psabi -I"$R" "$D/preexisting_px.c" "$R/mir2c/mir2c.c" "$R/_build/libmir_static.a" -lm -lpthread -o "$T/px" || exit 3
-for m in wrap addo_mem blk addos_upper rblk lref; do
+for m in wrap addo_mem addos_upper; do
   echo "== preexisting_$m.mir"
   echo -n "interp: "; timeout 60 "$T/px" "$D/preexisting_$m.mir" "$T/$m.c" 2>&1 || { echo "(translator failed, status $?)"; continue; }
   for O in -O0 -O2; do
